@@ -65,6 +65,13 @@ HEX_OPS = {
     'ptr_add': 'hex.ptr_add p{k}, 3',
     'ptr_sub': 'hex.ptr_sub p{k}, 2',
     'ptr_index': 'hex.ptr_index q{k}, p{k}, idx{k}',
+    'read_nth_hex': 'hex.read_nth_hex d{k}, p{k}, idx{k}',
+    'read_nth_byte': 'hex.read_nth_byte e{k}, p{k}, idx{k}',
+    'write_nth_hex': 'hex.write_nth_hex p{k}, idx{k}, s{k}',
+    'write_nth_byte': 'hex.write_nth_byte p{k}, idx{k}, t{k}',
+    # following a chain in place: the destination is the low hex / byte of the index itself (i = next[i])
+    'read_nth_hex_into_index': 'hex.read_nth_hex idx{k}, p{k}, idx{k}',
+    'read_nth_byte_into_index': 'hex.read_nth_byte idx{k}, p{k}, idx{k}',
 }
 
 
@@ -138,6 +145,21 @@ def apply_hex(op, m, k, w):
         m['ptr'][k] -= 2
     elif op == 'ptr_index':
         m['q'][k] = m['ptr'][k] + m['idx'][k]
+    elif op == 'read_nth_hex':
+        m['d'][k] = data(i + m['idx'][k]) & 15
+    elif op == 'read_nth_byte':
+        m['e'][k] = data(i + m['idx'][k])
+    elif op == 'write_nth_hex':
+        t = i + m['idx'][k]
+        m['cells'][t][1] = (data(t) & 0xF0) | m['s'][k]
+    elif op == 'write_nth_byte':
+        m['cells'][i + m['idx'][k]][1] = m['t'][k]
+    elif op == 'read_nth_hex_into_index':
+        v = m['idx'][k] & ((1 << w) - 1)
+        m['idx'][k] = (v & ~0xF) | (data(i + m['idx'][k]) & 15)
+    elif op == 'read_nth_byte_into_index':
+        v = m['idx'][k] & ((1 << w) - 1)
+        m['idx'][k] = (v & ~0xFF) | data(i + m['idx'][k])
     else:
         raise ValueError(op)
 
@@ -146,7 +168,9 @@ PAIRS = [('read_hex', 'write_hex'), ('write_hex', 'read_hex'), ('read_byte', 'wr
          ('xor_byte_to_ptr', 'xor_byte_from_ptr'), ('zero_ptr', 'read_byte'), ('ptr_flip_dbit', 'read_hex'), ('ptr_flip', 'ptr_flip_dbit'), ('ptr_wflip', 'read_byte'),
          ('ptr_wflip_2nd_word', 'write_hex'), ('read_hex_and_inc', 'read_hex_and_inc'), ('write_byte_and_inc', 'read_byte_and_inc'), ('write_hex_and_inc', 'xor_byte_from_ptr'),
          ('read_hex_n', 'write_byte_n'), ('write_hex_n', 'read_byte_n'), ('xor_hex_to_ptr_n', 'xor_byte_to_ptr_n'), ('ptr_inc', 'read_byte'), ('ptr_dec', 'write_byte'),
-         ('ptr_add', 'xor_hex_to_ptr'), ('ptr_sub', 'read_hex'), ('ptr_index', 'ptr_index'), ('read_byte', 'ptr_flip'), ('xor_byte_from_ptr', 'zero_ptr')]
+         ('ptr_add', 'xor_hex_to_ptr'), ('ptr_sub', 'read_hex'), ('ptr_index', 'ptr_index'), ('read_byte', 'ptr_flip'), ('xor_byte_from_ptr', 'zero_ptr'),
+         ('write_nth_hex', 'read_nth_hex'), ('write_nth_byte', 'read_nth_byte'), ('read_nth_hex_into_index', 'read_nth_byte_into_index'),
+         ('read_nth_byte_into_index', 'write_nth_hex')]
 
 
 class ChainMem:
